@@ -3,41 +3,43 @@ import LpModel.C01
 open Lp Lp.Interp Lp.C01
 
 /-  Requests
-      c01.eval  <tag> <xs> <ys> <xdim> <fdim> <pref> <mul> <M> (<x> <code>)^M
+      c01.eval  <tag> <ctor> <xs> <ys> <xdim> <fdim> <pref> <mul> <M> (<x> <code>)^M
       c01.evalx (same; the harness forks because the request may stop the process)
           code -1 = Interpolate(x), code k>=0 = Derivative(x,k)
           answer: ok (<value> <interval index>)^M | err
-      c01.eval2 / c01.eval2x  <tag> <xs> <ys> <rows> (<row>)^rows <xdim> <ydim> <fdim> <pref> <mul> <M> (<x> <y>)^M
+      c01.eval2 / c01.eval2x  <tag> <ctor> <xs> <ys> <rows> (<row>)^rows <xdim> <ydim> <fdim> <pref> <mul> <M> (<x> <y>)^M
           answer: ok (<value> <i> <j>)^M | err
 -/
 
 def pQ1 : P (Rat × Int) := do let v ← pRat; let c ← pInt; pure (v, c)
 def pQ2 : P (Rat × Rat) := do let v ← pRat; let w ← pRat; pure (v, w)
 
-def p1D : P (List Rat × List Rat × Rat × Rat × Rat × Rat × List (Rat × Int)) := do
+def p1D : P (Nat × List Rat × List Rat × Rat × Rat × Rat × Rat × List (Rat × Int)) := do
   let _ ← tok   -- family tag (for the comparator; ignored here)
+  let ctor ← pNat
   let xs ← pRats; let ys ← pRats
   let xdim ← pRat; let fdim ← pRat; let pref ← pRat; let mul ← pRat
   let qs ← pList pQ1
-  pure (xs, ys, xdim, fdim, pref, mul, qs)
+  pure (ctor, xs, ys, xdim, fdim, pref, mul, qs)
 
-def p2D : P (List Rat × List Rat × List (List Rat) × Rat × Rat × Rat × Rat × Rat × List (Rat × Rat)) := do
+def p2D : P (Nat × List Rat × List Rat × List (List Rat) × Rat × Rat × Rat × Rat × Rat × List (Rat × Rat)) := do
   let _ ← tok   -- family tag
+  let ctor ← pNat
   let xs ← pRats; let ys ← pRats
   let f ← pList pRats
   let xdim ← pRat; let ydim ← pRat; let fdim ← pRat; let pref ← pRat; let mul ← pRat
   let qs ← pList pQ2
-  pure (xs, ys, f, xdim, ydim, fdim, pref, mul, qs)
+  pure (ctor, xs, ys, f, xdim, ydim, fdim, pref, mul, qs)
 
 def ans1D (args : List String) : Option String :=
-  withArgs p1D args fun (xs, ys, xdim, fdim, pref, mul, qs) =>
-    match run1D xs ys xdim fdim pref mul qs with
+  withArgs p1D args fun (ctor, xs, ys, xdim, fdim, pref, mul, qs) =>
+    match run1Dc ctor xs ys xdim fdim pref mul qs with
     | .ok rs => "ok " ++ " ".intercalate (rs.map fun (r, j) => showRat r ++ " " ++ toString j)
     | .error _ => "err"
 
 def ans2D (args : List String) : Option String :=
-  withArgs p2D args fun (xs, ys, f, xdim, ydim, fdim, pref, mul, qs) =>
-    match run2D xs ys f xdim ydim fdim pref mul qs with
+  withArgs p2D args fun (ctor, xs, ys, f, xdim, ydim, fdim, pref, mul, qs) =>
+    match run2Dc ctor xs ys f xdim ydim fdim pref mul qs with
     | .ok rs => "ok " ++ " ".intercalate (rs.map fun (r, i, j) => showRat r ++ " " ++ toString i ++ " " ++ toString j)
     | .error _ => "err"
 
